@@ -149,6 +149,7 @@ OBL = {
     "threshold": "pool used iff length > 200 and caller not a worker",
     "scalar": "scalar:bit-identical-unless-listed: every element is BIT-IDENTICAL to the scalar binding (any NaN = any NaN); only the entry "
               "points on the named tolerance list may differ, by at most %d ulp-estimates" % ULP_TOL,
+    "component-property": "every component property used as a strided argument reads back the values stored in that component",
     "array-raises": "no array operation raises on moderate arguments for which the scalar binding succeeds on every element",
     "mismatch": "mismatched lengths / dimensions raise", "mismatch-write": "no write before the length check",
     "mismatch-crash": "mismatched lengths / dimensions do not crash",
@@ -162,6 +163,12 @@ REF_OUTSIDE_TABLE = {
     "imath.bias(d,d)": "bias_op is defined in PyImathFunOperators.h (pow(x, log(b)/log(0.5))): no Imath library function",
     "imath.gain(d,d)": "gain_op is defined in PyImathFunOperators.h on top of bias_op: no Imath library function",
 }
+
+
+# integer vector x float matrix (V3i * M44d ...): the homogeneous divide is done in INTEGER arithmetic and is a SIGFPE (C++ UB)
+# whenever w truncates to 0, in the scalar binding and in the array form alike (Part 1 exercises these in guarded / safe mode);
+# a table entry would crash the comparison process on generated data
+REF_OUTSIDE_RULE = re.compile(r"^V[234](s|i|i64)\.__(r|i)?mul__\(V[234](s|i|i64),M(33|44)[fd]\)$")
 
 
 def table_key_of_ref(r):
@@ -540,7 +547,7 @@ def run(chk):
     base = {"shim": shim, "seed": chk.seed, "full": bool(chk.thorough), "core_full": True,
             "threaded_reps": 3 if chk.thorough else 1, "ulp_tol": ULP_TOL, "driver": driver,
             "model_lengths": [0, 1, 7, 199, 200, 201, 257, 1000] if chk.thorough else [0, 1, 7, 200, 201, 257],
-            "worker_timeout": 1500 if chk.thorough else 600}
+            "worker_timeout": 3000 if chk.thorough else 1500}
     nproc = max(2, min(lib.NCPU, 16))
     rng = chk.rng
     rng.shuffle(sel)
@@ -718,7 +725,7 @@ def run(chk):
                  {"affected": names, "first": vs[0]["replay"]}, True)
     for v in rest_viols:
         byk[v["kind"]] += 1
-        k = v["key"] if (v["kind"] == "model" or v["key"].startswith(("length-mismatch-not-raised:", "array-raises:", "mismatch-crash:"))) else v["key"].split(":", 1)[1]
+        k = v["key"] if (v["kind"] == "model" or v["key"].startswith(("length-mismatch-not-raised:", "array-raises:", "mismatch-crash:", "component-property:"))) else v["key"].split(":", 1)[1]
         grouped.setdefault(k, []).append(v)
     for k, vs in grouped.items():
         kinds_ = sorted(set(v["kind"] for v in vs))
@@ -755,7 +762,7 @@ def run(chk):
                ndisp > 0 and sum(s["fallbacks"] for s in stats) == 0, {"dispatches": ndisp})
     if ndisp == 0:
         chk.fail("the scripted pool really was used", "pool-not-used", "no dispatch was intercepted: WorkerPool::setCurrentPool has no effect", {}, False)
-    for kind in ("partition", "nondeterministic", "threshold", "scalar", "array-raises", "mismatch", "mismatch-write", "mismatch-crash"):
+    for kind in ("partition", "nondeterministic", "threshold", "scalar", "component-property", "array-raises", "mismatch", "mismatch-write", "mismatch-crash"):
         name = OBL[kind]
         chk.oblige(name, "correspondence", byk.get(kind, 0) == 0, {"violating entry-point/kind combinations": byk.get(kind, 0)} if byk.get(kind) else None)
     chk.oblige(OBL["crash"], "correspondence",
@@ -874,7 +881,7 @@ def run(chk):
             for r in e.get("refs_used") or []:
                 used[table_key_of_ref(r)] += 1
         compared = set(k for k, v in scal["per_entry"].items() if v["compared"] > 0 or v["raise_both"] > 0)
-        outside = sorted(k for k in used if k not in compared and k not in REF_OUTSIDE_TABLE)
+        outside = sorted(k for k in used if k not in compared and k not in REF_OUTSIDE_TABLE and not REF_OUTSIDE_RULE.match(k))
         chk.extra["scalar_reference_spellings"] = {"distinct_spellings_used_by_part_1": len(used), "of_which_compared_with_C++_in_part_3": sum(1 for k in used if k in compared),
                                                    "PyImath_defined(named, no library counterpart)": {k: REF_OUTSIDE_TABLE[k] for k in used if k in REF_OUTSIDE_TABLE}}
         chk.oblige("scalar-reference ⊆ scalar-vs-cxx table: every scalar spelling Part 1 used as an element-wise reference (%d distinct) was compared "
